@@ -336,6 +336,61 @@ def main():
 ''', hostile=True)
 
 
+P('lifetimes', '''
+import gc, weakref
+DATA = {}
+LOG = []
+class Res:
+    """A resource released when the last reference goes (CPython reference counting, no collector needed)."""
+    def __init__(self, n):
+        self.n = n
+    def __del__(self):
+        LOG.append('released %s' % self.n)
+class Plain:
+    pass
+def work(n):
+    r = Res(n)
+    x = n + 1
+    return x
+def failing(n):
+    r = Res('f%d' % n)
+    raise ValueError(n)
+def gen(n):
+    r = Res('g%d' % n)
+    yield n
+    yield n + 1
+KEEP = []
+def scoped():
+    p = Plain()
+    KEEP.append(weakref.ref(p, lambda _: LOG.append('weak callback')))
+    q = [p]
+    return len(q)
+def main():
+    was = gc.isenabled()
+    gc.disable()
+    try:
+        for i in range(2):
+            work(i)
+            LOG.append('after work %d' % i)
+        try:
+            failing(7)
+        except ValueError:
+            pass
+        LOG.append('after failing')
+        for v in gen(1):
+            pass
+        LOG.append('after gen')
+        scoped()
+        LOG.append('after scoped')
+    finally:
+        if was:
+            gc.enable()
+    DATA['log'] = list(LOG)
+    out('lifetimes', len(LOG))
+    return list(LOG)
+''', hostile=True)
+
+
 # --------------------------------------------------------------------------------------------
 # Generated programs (thorough tiers): every program of a small statement grammar, de-duplicated by
 # the event signature of its bare run.
